@@ -88,6 +88,26 @@ def probe_state(sb, ref, cs, fee, faults):
         if not val_impossible:
             msgs.append("valuation raised %r although every non-zero position has its liquidation quote (faults %s)" % (ex, faults))
     out.append(("valuation", msgs, val_impossible))
+    # ---- recovery: a valid quote after the NaN one restores a valuation that matches the ledger exactly
+    if "dead" not in faults:
+        msgs = []
+        b = fresh()
+        try:
+            b.net_liquidation_value(False)      # may raise; a failed valuation in between must leave no trace either
+        except Exception:
+            pass
+        for c, f in zip(cs, faults):
+            if f != "none":
+                book = unsnap(sb).exchange[c]
+                b.exchange.process_EventNBBO(EventNBBO(t, c, book.bid_price * 1.0625, book.ask_price * 1.0625))
+        try:
+            got = b.net_liquidation_value(False)
+            want = ref.nlv(b.exchange, cs)
+            if not fclose(got, want):
+                msgs.append("after the quote of %s recovered, valuation returns %r, ledger %r" % (faults, got, float(want)))
+        except Exception as ex:
+            msgs.append("valuation after the quotes recovered raised %r" % (ex,))
+        out.append(("recovery", msgs, True))
     # ---- weights
     msgs = []
     b = fresh()
